@@ -247,6 +247,10 @@ func SlotScenarios(tier string) []*Scenario {
 			return Choice{Skip: true}
 		}}
 	out := []*Scenario{}
+	if tier != "thorough" {
+		// forks that share an activation epoch: several in-place upgrades at one slot (short history, small menu)
+		out = append(out, &Scenario{Name: "healthy/three-upgrades-in-epoch-1", Preset: T4([5]uint64{0, 1, 1, 1, 2}), Slots: 8, Default: defaultBlock, Menu: SmallMenu, NKeys: 24})
+	}
 	for _, sc := range Scenarios(tier) {
 		c := *sc
 		c.Menu = SlotMenu
